@@ -175,7 +175,7 @@ class Handle:
         F = self._decl(name, sig)
         argk = sig.split(">")[0]
         assert len(argk) == len(args), (name, sig, len(args))
-        if self.kind == "sym":
+        if self.kind == "sym" or any(symx.is_sym(a) for a in args):
             zs = []
             for k, a in zip(argk, args):
                 e = _z(a)
@@ -315,6 +315,9 @@ def _patch_pandas():
     _patched = True
 
 
+TOKEN_MODE = [False]  # when set, np.zeros/full/empty/ones of the concrete world allocate object arrays (cells may hold symbolic tokens)
+
+
 def make_conc_world(extra_overrides=None, repo=None, register=False):
     import numpy as _np
     import pandas as _pd
@@ -334,6 +337,20 @@ def make_conc_world(extra_overrides=None, repo=None, register=False):
 
     def _lax(f):
         def g(*a, **k):
+            dt = k.get("dtype", a[2] if (f is _np.full and len(a) > 2) else (a[1] if (f is not _np.full and len(a) > 1) else None))
+            intlike = dt in (int, bool, _np.int64, _np.int32, _np.bool_, "int", "int64", "bool")
+            if TOKEN_MODE[0] and not intlike:
+                k["dtype"] = object
+                if f is _np.full:
+                    a = a[:2]
+                elif len(a) > 1:
+                    a = a[:1]
+                r = f(*a, **k)
+                if f is _np.zeros:
+                    r[...] = 0.0
+                elif f is _np.ones:
+                    r[...] = 1.0
+                return r.view(LaxArr)
             return f(*a, **k).view(LaxArr)
 
         return g
